@@ -5,8 +5,9 @@ Scene: axis-parallel rectangles (routing boxes, i.e. already expanded by shapeBu
 endpoints with libavoid `ConnDirFlags` masks (Up=1 Down=2 Left=4 Right=8; Up = decreasing y), and
 the bend penalty.  The grid is computed *here* from the scene (sides of all boxes + endpoint
 coordinates).  Search states are (grid point, heading); an edge moves to the adjacent grid point in
-a heading that is not the reverse of the current one, along a grid line that does not cross the
-open interior of any box, and costs its length plus `pen` if the heading changes.
+any heading along a grid line that does not cross the open interior of any box, and costs its
+length plus the bend charge of makepath.cpp `cost()` (`pen` for a quarter turn, `2·pen` for
+doubling back, nothing straight on).
 The (untrusted) harness supplies a potential over the states and a witness path; this file checks
   * feasibility  π(u) ≤ w + π(v)  on every edge,  π(goal) ≤ 0,
   * the witness is a walk of the graph from the source to a goal state,
@@ -102,19 +103,22 @@ def move (g : Grid) (u : State) (d : Nat) : Option State :=
   let j' : Int := (u.j : Int) + hdy d
   if 0 ≤ i' ∧ i' < g.nx ∧ 0 ≤ j' ∧ j' < g.ny then some ⟨i'.toNat, j'.toNat, d⟩ else none
 
-/-- the edge leaving `u` in heading `d` (none: reversal, outside the grid, or blocked) -/
+/-- bend charge for changing heading from `h` to `d`, as in makepath.cpp `cost()`: nothing when
+    going straight on, one `segmentPenalty` for a quarter turn, two for doubling back -/
+def turnCost (pen : Rat) (h d : Nat) : Rat :=
+  if d = h then 0 else if d = (h + 2) % 4 then 2 * pen else pen
+
+/-- the edge leaving `u` in heading `d` (none: outside the grid, or blocked) -/
 def edge (sc : Scene) (g : Grid) (u : State) (d : Nat) : Option (State × Rat) :=
-  if d = (u.h + 2) % 4 then none
-  else
-    match move g u d with
-    | none => none
-    | some v =>
-      let ax := g.px u.i
-      let ay := g.py u.j
-      let bx := g.px v.i
-      let by_ := g.py v.j
-      if segBlocked sc ax ay bx by_ then none
-      else some (v, absR (bx - ax) + absR (by_ - ay) + (if d = u.h then 0 else sc.pen))
+  match move g u d with
+  | none => none
+  | some v =>
+    let ax := g.px u.i
+    let ay := g.py u.j
+    let bx := g.px v.i
+    let by_ := g.py v.j
+    if segBlocked sc ax ay bx by_ then none
+    else some (v, absR (bx - ax) + absR (by_ - ay) + turnCost sc.pen u.h d)
 
 def succ (sc : Scene) (g : Grid) (u : State) : List (State × Rat) :=
   [0, 1, 2, 3].filterMap (edge sc g u)
